@@ -78,11 +78,28 @@ func checkCase(c *Case, count bool) error {
 	if err != nil {
 		return nil
 	}
-	// second router: same routes held uncommitted in a write transaction
+	// second router: the same routes, one of them committed (the one with the fewest wildcards, but at least one, if there is
+	// such a route: the committed tree is then sized for fewer parameters than the transaction's routes record) and the
+	// others held uncommitted in a write transaction
 	r2, _ := rt.New(rt.Global{}, nil)
+	first := -1
+	for i, s := range r.Routes {
+		if n := len(ref.Wildcards(s.Pattern)); n > 0 && (first < 0 || n < len(ref.Wildcards(r.Routes[first].Pattern))) {
+			first = i
+		}
+	}
+	if first >= 0 {
+		s := r.Routes[first]
+		if _, err := r2.F.Handle(s.Method, s.Pattern, r2.Sink.Handler(s.Pattern)); err != nil {
+			return fmt.Errorf("routes %v: registering %s %s alone on an empty router failed: %v", r.Routes, s.Method, s.Pattern, err)
+		}
+	}
 	wtx := r2.F.Txn(true)
 	defer wtx.Abort()
-	for _, s := range r.Routes {
+	for i, s := range r.Routes {
+		if i == first {
+			continue
+		}
 		if _, err := wtx.Handle(s.Method, s.Pattern, r2.Sink.Handler(s.Pattern)); err != nil {
 			return fmt.Errorf("routes %v: registering %s %s inside a write transaction failed (%v) although the router accepted the same sequence", r.Routes, s.Method, s.Pattern, err)
 		}
@@ -180,8 +197,8 @@ func checkCase(c *Case, count bool) error {
 		} else if h.Kind != "noroute" {
 			return fmt.Errorf("%sLookup returned %v but ServeHTTP ran %s handler pattern=%q", desc(), got, h.Kind, h.Pattern)
 		}
-		// the router that only holds an open transaction routes nothing
-		if o := rt.DoLookup(r2.F, q); o.Pattern != "" {
+		// the router whose other routes sit in an open transaction routes nothing but its one committed route
+		if o := rt.DoLookup(r2.F, q); o.Pattern != "" && (first < 0 || o.Pattern != r.Routes[first].Pattern || q.Method != r.Routes[first].Method) {
 			return fmt.Errorf("%suncommitted routes are visible through the router: %v", desc(), o)
 		}
 		if count {
@@ -253,6 +270,20 @@ func genCase(t *rapid.T) *Case {
 		}
 		for _, p := range paths {
 			c.Reqs = append(c.Reqs, rt.Req{Method: "GET", Path: p})
+		}
+		return c
+	}
+	if gen.Chance(t, 1, 25, "longtwins") {
+		// routes that share a long stretch of text inside one tree node and differ only after it (32, 33, 64 ... bytes in):
+		// registered one after the other, each is found under its own text, for paths and for hostnames
+		n := gen.Pick(t, []int{31, 32, 33, 40, 63, 64, 65, 100}, "shared")
+		stem := strings.Repeat("abcdefghij", 11)[:n]
+		hstem := "tenant-a.api.eu-central-1.internal.example-" + strings.Repeat("x", max(n-43, 0))
+		for _, p := range []string{"/" + stem + "one", "/" + stem + "two/{id}", "/" + stem + "t", hstem + ".com/status", hstem + ".org/status", hstem + ".org/{p}"} {
+			c.Routes = append(c.Routes, rt.RouteSpec{Method: "GET", Pattern: p})
+		}
+		for _, q := range [][2]string{{"", "/" + stem + "one"}, {"", "/" + stem + "two/7"}, {"", "/" + stem + "t"}, {"", "/" + stem + "tw"}, {hstem + ".com", "/status"}, {hstem + ".org", "/status"}, {hstem + ".org", "/zz"}, {hstem + ".net", "/status"}, {"tenant-a.ap.org", "/status"}} {
+			c.Reqs = append(c.Reqs, rt.Req{Method: "GET", Host: q[0], Path: q[1]})
 		}
 		return c
 	}
